@@ -308,8 +308,8 @@ def case(spec):
 def main(tier, seed, scale=1.0):
     BIN['san'] = build.ensure('san')
     q = tier == 'quick'
-    counts = {'single': 30 if q else 500, 'inter': 30 if q else 500, 'twosided': 8 if q else 80, 'mmb': 10 if q else 120,
-              'nocat': 12 if q else 160}
+    counts = {'single': 60 if q else 500, 'inter': 60 if q else 500, 'twosided': 16 if q else 120, 'mmb': 16 if q else 120,
+              'nocat': 16 if q else 160}
     specs = []
     for k, n in counts.items():
         specs += [(seed, k, i, tier) for i in range(max(1, int(n * scale)))]
